@@ -1,6 +1,7 @@
 import QV.Model.Compiler
 import QV.Proofs.Circuit
 import QV.Proofs.CompilerInv
+import QV.Proofs.CompilerSem
 /-!
 # C02 – The circuit computes the function's boolean expressions
 
@@ -28,6 +29,10 @@ for gate; see `known_findings.json`), so what is proved here is (partial):
   return bit is mapped to a qubit"), `compile_inputs_first` (arguments on qubits `0..n-1`),
   `compile_bookkeeping`; with the corollaries `compile_remove_identities_preserves` and
   `compile_reverse_replay_undoes`.  They say nothing about the *values* on the qubits.
+* a **semantic fragment theorem** `C02_fragment_partial`: on the decidable class `inFragment` (one
+  definition `r = e`, `e` a Not/And/Or/Xor expression over the arguments in which no compound
+  sub-expression occurs twice) every successful run of `compile`, with and without final
+  uncomputation, for every admissible ancilla-choice sequence, is `Correct`.
 -/
 namespace QV.C02
 open QV QV.Compiler
@@ -249,5 +254,95 @@ example : retsDefined [("__t", .xor [.sym "a", .sym "b"]), ("_ret", .not (.sym "
 
 example : inputsFresh ["a", "b"] [("__t", .xor [.sym "a", .sym "b"]), ("_ret", .not (.sym "__t"))] = true := by
   decide +kernel
+
+/-! ## Semantic fragment theorem (values on the qubits)
+
+`C02_statement` is false for the compiler as it is, but it holds on a decidable class of programs:
+a single definition `r = e` whose expression is built from the argument symbols with
+`Not` / `And` / `Or` / `Xor` of any arity (symbols may repeat) and in which no compound
+sub-expression occurs twice.  There every lookup in the expression cache misses, the free set is
+empty while `e` is compiled (every ancilla is a new qubit) and the inline `uncompute` after the
+statement only replays gates whose target is a marked ancilla, never the result qubit.
+Proofs: `QV/Proofs/CompilerSem.lean` (`exprSem` / `argsSem` / `xorSem` by mutual structural
+recursion, `compile_single_sem`). -/
+
+/-- **C02 on the tree-like single-definition fragment**, final uncomputation off (`unc = false`) or
+on: every successful run of the compiler model – for every admissible sequence of ancilla choices –
+is `Correct`: on every classical input the qubit mapped to the return name ends with the value of
+its expression.  (With `unc = true` the final `uncompute_all` replays no gate whose target is the
+kept return qubit; that the other qubits come back to zero is C03's matter and not claimed here.) -/
+theorem C02_fragment_partial (inputs : List String) (defs : List (String × BExp)) (rets : List String)
+    (unc : Bool) (choices : List Nat) (s : CState)
+    (hf : inFragment inputs defs rets = true)
+    (h : (compile inputs defs (some rets) unc).run { choices := choices } = .ok ((), s)) :
+    Correct s.qc.gates.toList s.qc.numQubits s.qc.qmap inputs defs rets := by
+  match defs, hf, h with
+  | [(r, e)], hf, h =>
+    simp only [inFragment, Bool.and_eq_true, decide_eq_true_eq, List.all_eq_true, bne_iff_ne, ne_eq,
+      Bool.not_eq_true', beq_iff_eq] at hf
+    obtain ⟨⟨⟨⟨hnd, hfr⟩, hov⟩, htl⟩, hrets⟩ := hf
+    intro x hx r' hr'
+    have hr : r' = r := hrets r' hr'
+    subst hr
+    obtain ⟨q, hq, hv⟩ := compile_single_sem h (fun _ => hr') hnd (fun n hn => hfr n hn) hov htl x hx
+    refine ⟨q, hq, ?_⟩
+    rw [hv]
+    simp [evalDefs, envOf]
+
+/-- Stage A/B in isolation: what `compile_expr` leaves on the qubits, for every expression of the
+fragment compiled without a destination from a state satisfying the invariant `Pre` (argument
+qubits hold the arguments, free set empty, …): the returned qubit holds `⟦e⟧`, every qubit that
+existed before is unchanged -/
+theorem C02_fragment_expr (inputs : List String) (ρ : Env) (σ0 : FState) (r : String)
+    (amb : Amb inputs σ0 r) (e : BExp) (hov : overInputs inputs e = true) (htl : treeLike e = true)
+    (hns : isSym e = false) (sym : Option String) (hsym : ∀ x, sym = some x → x = r)
+    (a : Nat) (s s' : CState)
+    (h : (compileExpr e none sym).run s = .ok (a, s')) (hp : Pre inputs ρ σ0 s)
+    (hcache : s.expq = []) :
+    cur σ0 s' a = e.eval ρ ∧ ∀ q, q < s.qc.numQubits → cur σ0 s' q = cur σ0 s q := by
+  obtain ⟨sem, hv, _⟩ := exprSem (ρ := ρ) amb e hov (distinctB_iff.mp htl) none sym h hp
+    (by intro p hp'; rw [hcache] at hp'; cases hp') (by intro d hd; cases hd) hsym
+    (by intro hs; rw [hns] at hs; cases hs)
+  exact ⟨(hv rfl).2, fun q hq => sem.frame q hq (fun hd => by cases hd)⟩
+
+/-- an instance of the class (n-ary `Or`, nested `And` / `Xor` / `Not`, repeated variables) -/
+example : inFragment ["a", "b", "c"]
+    [("_ret", .or [.and [.sym "a", .not (.sym "b")],
+                   .xor [.sym "c", .not (.and [.sym "a", .sym "c"])], .sym "b"])] ["_ret"] = true := by
+  decide +kernel
+
+/-- not in the class: `a & b` occurs twice (the second occurrence is a cache hit) -/
+example : inFragment ["a", "b"]
+    [("_ret", .xor [.and [.sym "a", .sym "b"], .not (.and [.sym "a", .sym "b"])])] ["_ret"] = false := by
+  decide +kernel
+
+/-- non-vacuity of `C02_fragment_partial`: a program of the class with a successful run -/
+example : inFragment ["a", "b", "c"]
+      [("_ret", .xor [.not (.sym "a"), .sym "b", .not (.xor [.sym "c", .not (.sym "b")])])] ["_ret"] = true ∧
+    ∃ s, (compile ["a", "b", "c"]
+      [("_ret", .xor [.not (.sym "a"), .sym "b", .not (.xor [.sym "c", .not (.sym "b")])])]
+      (some ["_ret"]) false).run { choices := [3, 4] } = .ok ((), s) := by
+  refine ⟨by decide +kernel, ?_⟩
+  have h : ((compile ["a", "b", "c"]
+      [("_ret", .xor [.not (.sym "a"), .sym "b", .not (.xor [.sym "c", .not (.sym "b")])])]
+      (some ["_ret"]) false).run { choices := [3, 4] }).toBool = true := by decide +kernel
+  cases hrun : (compile ["a", "b", "c"]
+      [("_ret", .xor [.not (.sym "a"), .sym "b", .not (.xor [.sym "c", .not (.sym "b")])])]
+      (some ["_ret"]) false).run { choices := [3, 4] } with
+  | ok p => exact ⟨p.2, rfl⟩
+  | error e => rw [hrun] at h; cases h
+
+/-- the same program, final uncomputation on -/
+example : ∃ s, (compile ["a", "b", "c"]
+      [("_ret", .xor [.not (.sym "a"), .sym "b", .not (.xor [.sym "c", .not (.sym "b")])])]
+      (some ["_ret"]) true).run { choices := [3, 4] } = .ok ((), s) := by
+  have h : ((compile ["a", "b", "c"]
+      [("_ret", .xor [.not (.sym "a"), .sym "b", .not (.xor [.sym "c", .not (.sym "b")])])]
+      (some ["_ret"]) true).run { choices := [3, 4] }).toBool = true := by decide +kernel
+  cases hrun : (compile ["a", "b", "c"]
+      [("_ret", .xor [.not (.sym "a"), .sym "b", .not (.xor [.sym "c", .not (.sym "b")])])]
+      (some ["_ret"]) true).run { choices := [3, 4] } with
+  | ok p => exact ⟨p.2, rfl⟩
+  | error e => rw [hrun] at h; cases h
 
 end QV.C02
